@@ -222,6 +222,12 @@ def cli_md_query(ctx, b, spec, secs, names, tag):
                     ctx.violate('cli-query-fails', 'pybufrkit query %r failed: %r %s' % (expr, exc, se[:120]), dict(spec, expr=expr))
                     continue
                 lines = so.splitlines()
+                if k is None:
+                    so2, se2, exc2, code2 = run_cli(['query', expr, path, path])
+                    ctx.count('cli_query_two_file_runs')
+                    if exc2 is not None or so2 != so + so:
+                        ctx.violate('cli-query-several-files', 'pybufrkit query %r over two copies of a file does not print the single-file '
+                                    'output twice' % expr, dict(spec, expr=expr), observed=so2[:200])
                 if lines[:1] != [path] or lines[1:] != [str(exp)]:
                     ctx.violate('cli-query-output-differs', 'pybufrkit query %r printed %r, the section layout gives %r' % (expr, lines[1:3], exp),
                                 dict(spec, expr=expr), expected=str(exp), observed=so[:200])
